@@ -144,6 +144,15 @@ theorem Attr.isSuper_spec_trans {a b c : Attr}
   obtain ⟨⟨⟨n2, o2⟩, v2⟩, m2⟩ := h2
   exact ⟨⟨⟨n1.trans n2, o1.trans o2⟩, cssStrEq_spec_trans v1 v2⟩, m1.trans m2⟩
 
+theorem Attr.isSuper_trans_of {q : SuperQuirks} (hq : q.attrQuoteMix = false) {a b c : Attr}
+    (h1 : Attr.isSuper q a b = true) (h2 : Attr.isSuper q b c = true) :
+    Attr.isSuper q a c = true := by
+  simp only [Attr.isSuper, cssStrEq, hq, Bool.false_and, Bool.false_eq_true, if_false,
+    Bool.and_eq_true, decide_eq_true_eq] at *
+  obtain ⟨⟨⟨n1, o1⟩, v1⟩, m1⟩ := h1
+  obtain ⟨⟨⟨n2, o2⟩, v2⟩, m2⟩ := h2
+  exact ⟨⟨⟨n1.trans n2, o1.trans o2⟩, v1.trans v2⟩, m1.trans m2⟩
+
 /-- A relation on attributes that the proofs need: reflexive and transitive. -/
 structure AttrPreorder (A : Attr → Attr → Bool) : Prop where
   refl : ∀ a, A a a = true
